@@ -349,6 +349,17 @@ def run(ctx: Ctx) -> None:
             rep.ok("C14.R9", rec9.qname, desc, rec9.loc(r))
     rep.floor("C14.R9", n9, 3)
 
+    # ---- R10 / R11 ------------------------------------------------------------------------------------------------------
+    from .common import no_missing_return
+    rep.rule("C14.R10", "the resolver and the inspectors never fall off their end where a resolution is expected (mypy: no `Missing return statement`): a "
+                        "name that was resolved must be returned, not dropped")
+    n10 = no_missing_return(ctx, "C14.R10", ("dds._retrieve_objects", "dds.introspect", "dds._introspect_indirect", "dds._eval_ctx"),
+                            "an accepted function reached through this path is answered None: it is silently untracked, and editing it leaves every signature unchanged")
+    rep.floor("C14.R10", n10, 3)
+    rep.rule("C14.R11", "collectors accumulate: the set / list / dict a function returns is never re-assigned inside the loop that fills it")
+    n11 = accumulators_not_overwritten(ctx, "C14.R11", ("dds.introspect", "dds._introspect_indirect", "dds._retrieve_objects"))
+    rep.floor("C14.R11", n11, 1)
+
     # ---- R7 / R8: the boundary is decided from the accepted set and the program alone -----------------------------
     from .c02 import process_reads, RESOLVER_MODULES
     from .c03 import global_cache_rule
@@ -359,6 +370,38 @@ def run(ctx: Ctx) -> None:
     rep.rule("C14.R8", "as C03.R3(i): no process-wide cache of resolutions / authorisation answers is written and served to later evaluations "
                        "(the accepted set can change between two evaluations of one process)")
     global_cache_rule(ctx, "C14.R8")
+
+
+def accumulators_not_overwritten(ctx: Ctx, rule: str, modules) -> int:
+    """A function that returns a container it fills in a loop never re-binds that container inside the loop to a value that
+    does not contain it (`res = f(x)` for `res.update(f(x))`): the elements collected so far - typically the function's own
+    entry, added before the loop - would be lost."""
+    rep = ctx.report
+    n = 0
+    for f in ctx.prog.funcs.values():
+        if f.module.name not in modules:
+            continue
+        rets = {r.value.id for r in f.own_nodes() if isinstance(r, ast.Return) and isinstance(r.value, ast.Name)}
+        if not rets:
+            continue
+        for loop in [x for x in f.own_nodes() if isinstance(x, (ast.For, ast.While))]:
+            for acc in rets:
+                fills = [y for y in ast.walk(loop) if isinstance(y, ast.Call) and isinstance(y.func, ast.Attribute) and y.func.attr in ("update", "add", "append", "extend")
+                         and isinstance(y.func.value, ast.Name) and y.func.value.id == acc]
+                inits = [st for st in f.own_nodes() if isinstance(st, (ast.Assign, ast.AnnAssign)) and st.lineno < loop.lineno
+                         and any(isinstance(t, ast.Name) and t.id == acc for t in (st.targets if isinstance(st, ast.Assign) else [st.target]))]
+                over = [st for st in ast.walk(loop) if isinstance(st, ast.Assign) and any(isinstance(t, ast.Name) and t.id == acc for t in st.targets)
+                        and not any(isinstance(y, ast.Name) and y.id == acc for y in ast.walk(st.value))]
+                if not inits or (not fills and not over):
+                    continue
+                n += 1
+                desc = f"{f.name}: the collection `{acc}` returned by the function is only extended inside its loop"
+                if over:
+                    rep.bad(rule, f.qname, desc, f.loc(over[0]), [f"{f.loc(over[0])}: `{unparse(over[0], 60)}` re-binds `{acc}` inside the loop: what was collected before (the entry added at "
+                            f"{f.loc(inits[0])}) is lost"], stmt_key(over[0]), what="a collector overwrites its accumulator: the function's own entry drops out of the result")
+                else:
+                    rep.ok(rule, f.qname, desc, f.loc(loop))
+    return n
 
 
 def _ancestors_if(f: Func, n: ast.AST) -> List[ast.If]:
